@@ -184,7 +184,8 @@ def opt_val(t, z):
 
 
 def tup_mk(t, zs):
-    return getattr(sort_of(t), 'mk_' + _nm(t))(*zs)
+    c = getattr(sort_of(t), 'mk_' + _nm(t))
+    return c(*zs) if zs else c
 
 
 def tup_get(t, z, i):
